@@ -307,3 +307,23 @@ REGISTRY["C16"] = {
         {"name": "TestC16Engine", "checks": {"quick": 150, "thorough": 6000}, "shards": {"quick": 8, "thorough": 16}},
     ],
 }
+
+REGISTRY["C15"] = {
+    "pkg": "props/c15",
+    "level": "exploration",
+    "level_text": ("(i) every .bpmn file bundled under testdata/, examples/ and schema/testdata/; (ii) rapid-generated definitions: C01-style programs (all "
+                   "flow-node kinds, default flows, formal/informal expressions with and without language, both default languages, permuted declaration order) "
+                   "decorated with data objects + references + olive body, olive taskDefinition/headers/properties/results/dataInput/dataOutput, timer / "
+                   "signal / message event definitions incl. operationRef, collaborations with participants and message flows, DI shapes/edges/labels, text "
+                   "with surrounding whitespace and characters needing escaping. Oracle: M1=Parse(x), x2=Marshal(M1), M2=Parse(x2): reflective field-by-field "
+                   "equivalence incl. the dynamic type behind every interface field (FormalExpression vs Expression), Marshal(M2)==x2, M1 unchanged by "
+                   "marshalling (vs an untouched second parse), every model-element id retrievable by FindBy(ExactId) in both models, and on every third case "
+                   "the lock-step engine run on M1 and on M2 under the same data and schedule yields identical observations."),
+    "level_note": "Trusted: the reflective equivalence in props/c15/equiv.go (nil text == whitespace-only text, strings compared after trimming), encoding/xml, the lock-step driver. Ids of diagram-interchange elements and of the definitions root are not looked up (ExactId addresses base elements).",
+    "technique": "rapid property test: XML round-trip oracle (equivalence, fixpoint, non-mutation, id lookup) plus differential engine run on original vs re-parsed model; native go fuzzing in the thorough tier",
+    "rule": ("Distinct = (program, decoration flags, data, schedule) resp. file path. Non-trivial = the document contains a formal condition expression or an event definition or an olive extension."),
+    "tests": [
+        {"name": "TestC15Files", "mode": "plain", "shards": {"quick": 1, "thorough": 1}},
+        {"name": "TestC15Generated", "checks": {"quick": 150, "thorough": 6000}, "shards": {"quick": 12, "thorough": 16}},
+    ],
+}
